@@ -25,3 +25,27 @@ def patFindOK (cm : Nat → Nat → Bool) (ps : List (Nat × Re)) (w : List Nat)
         (patCands cm ps w).all fun c' => decide (c'.2 < len) || (c'.2 == len && decide (c.1 ≤ c'.1))
 
 end Scnr
+
+namespace Scnr
+
+/-- Position of the first pattern carrying token type `t` (what `priority_of` of the crate computes). -/
+def firstIdxOfType (ps : List (Nat × Re)) (t : Nat) : Nat := (ps.map (·.1)).idxOf t
+
+/-- The rule the crate follows when token types are shared within a mode (DESIGN F2): the longest
+    match wins; among the longest matches the token type whose *first occurrence in the pattern list*
+    comes first is reported. With pairwise distinct token types this is `patFindOK`
+    (`sharedTypeRule_eq_patFindOK`); with shared ones it differs exactly when a pattern ties with
+    an earlier-listed pattern of another type while its own type already occurred before that one.
+    Used only to classify a failure of `patFindOK` as the recorded finding F2. -/
+def sharedTypeRule (cm : Nat → Nat → Bool) (ps : List (Nat × Re)) (w : List Nat) : Option (Nat × Nat) → Bool
+  | none => (patCands cm ps w).isEmpty
+  | some (t, len) =>
+    (patCands cm ps w).any fun c =>
+      c.2 == len && (ps[c.1]?.map (·.1)) == some t &&
+        (patCands cm ps w).all fun c' => decide (c'.2 < len) ||
+          (c'.2 == len && decide (firstIdxOfType ps t ≤ firstIdxOfType ps ((ps[c'.1]?.map (·.1)).getD 0)))
+
+/-- Token types of a mode are pairwise distinct. -/
+def distinctTypes (ps : List (Nat × Re)) : Bool := decide (ps.map (·.1)).Nodup
+
+end Scnr
